@@ -9,7 +9,7 @@ trap 'git -C /repo worktree remove --force '$wt' >/dev/null 2>&1' EXIT
 git -C $wt apply "$patch" || { echo "patch does not apply"; exit 3; }
 for p in "$@"; do
   start=$(date +%s)
-  AU_REPO=$wt VERIF_SEED=${VERIF_SEED:-1} timeout 3600 python3-vt run.py "$p" --tier ${TIER:-quick} > /tmp/try_$p.log 2>&1
+  AU_REPO=$wt AUV_EVIDENCE_DIR=/tmp/au_try_evidence VERIF_SEED=${VERIF_SEED:-1} timeout 3600 python3-vt run.py "$p" --tier ${TIER:-quick} > /tmp/try_$p.log 2>&1
   rc=$?
   echo "== $p rc=$rc ($(( $(date +%s) - start ))s)  $(grep -c VIOLATION /tmp/try_$p.log) violation line(s)"
   grep -E "failure:|BROKEN|KNOWN-FINDING" /tmp/try_$p.log | cut -c1-260 | head -4
